@@ -1,6 +1,5 @@
 import Lean.Data.Json
 import SpoxModel.Model.Prog
-import SpoxModel.Model.Bridge
 /-!
 Line-protocol handler for C01: the model side of the translation validation.
 
@@ -80,43 +79,7 @@ partial def parseEN (j : Json) : Except String ENode := do
   return .mk id subs
 end
 
-mutual
-partial def egJ : EGraph → Json
-  | .mk args body res => Json.arr #[toJson args, Json.arr (body.map enJ).toArray,
-      Json.arr (res.map (fun r => toJson [r.node, r.idx])).toArray]
-partial def enJ : ENode → Json
-  | .mk id subs => Json.arr #[toJson id, Json.arr (subs.map egJ).toArray]
-end
-
-/-- `{"bridge": {"nodes": [{"a","i","s"}…], "graphs": [{"res", "args"?}…]}}` (C04's program format):
-    run C04's `Builder` model, parse its nested emission and judge it with `validG`. -/
-def handleBridge (j : Json) : Json :=
-  match (do
-    let ns ← j.getObjValAs? (Array Json) "nodes"
-    let gs ← j.getObjValAs? (Array Json) "graphs"
-    let nodes ← ns.toList.mapM fun (n : Json) => do
-      let a ← n.getObjValAs? Bool "a"
-      let i ← n.getObjValAs? (List Nat) "i"
-      let s ← n.getObjValAs? (List Nat) "s"
-      return (⟨a, i, s⟩ : BuildAlg.PNode)
-    let graphs ← gs.toList.mapM fun (g : Json) => do
-      let r ← g.getObjValAs? (List Nat) "res"
-      let args : Option (List Nat) := match g.getObjValAs? (List Nat) "args" with
-        | .ok l => some l
-        | .error _ => none
-      return (⟨args, r⟩ : BuildAlg.PGraph)
-    let p : BuildAlg.Prog := ⟨nodes, graphs⟩
-    let r := Bridge.bridge p
-    return Json.mkObj [("wf", toJson p.WFb), ("built", toJson r.built), ("struct_ok", toJson r.structOk),
-      ("valid", toJson r.valid),
-      ("emit", match r.emission with | some e => egJ e | none => Json.null)]) with
-  | .ok j => j
-  | .error e => Json.mkObj [("error", e)]
-
 def handle (req : Json) : Json :=
-  match req.getObjVal? "bridge" with
-  | .ok j => handleBridge j
-  | .error _ =>
   match (do
     let nodesJ ← req.getObjValAs? (Array Json) "nodes"
     let nodes ← nodesJ.toList.mapM parseNode
